@@ -947,6 +947,7 @@ pub fn run_program(prog: &Value, w: &mut dyn std::io::Write) -> u64 {
 
     let mut pc = 0usize;
     let mut first_mount = true;
+    let mut stop_after = false;
     'outer: loop {
         if pc >= ops.len() && !first_mount {
             break;
@@ -1034,8 +1035,11 @@ pub fn run_program(prog: &Value, w: &mut dyn std::io::Write) -> u64 {
                 let hung = dev.0.borrow().budget_tripped;
                 finish_event(&mut ev, &dev, &geo, &cfg, &dopts, &mut out, if panicked || hung { None } else { Some(&fs) }, &clock);
                 out.emit(ev);
-                if panicked || hung {
+                // after an injected device fault the state is not trusted any more: stop here
+                let faulted = dev.0.borrow().fault_hit.is_some();
+                if panicked || hung || faulted {
                     end = End::Panic;
+                    stop_after = faulted;
                     break;
                 }
             }
@@ -1103,7 +1107,7 @@ pub fn run_program(prog: &Value, w: &mut dyn std::io::Write) -> u64 {
         dev.0.borrow_mut().fault_at = None;
         finish_event(&mut ev, &dev, &geo, &cfg, &dopts, &mut out, None, &clock);
         out.emit(ev);
-        if end == End::Finish {
+        if end == End::Finish || stop_after || dev.0.borrow().fault_hit.is_some() {
             break;
         }
         // optional harness-side modification of the unmounted image ("someone else touched the volume")
